@@ -43,12 +43,14 @@ namespace GeographicLib {
       return;
     }
     char grid[2 + 2 * maxprec_];
-    int
-      xh = int(floor(x / tile_)),
-      yh = int(floor(y / tile_));
-    real
-      xf = x - tile_ * xh,
-      yf = y - tile_ * yh;
+    // Split x and y into integer and fractional parts (both are exact) so
+    // that the cell containing the point is found with exact arithmetic.
+    real xi = floor(x), yi = floor(y), xf = x - xi, yf = y - yi;
+    int ixm = int(xi), iym = int(yi),
+      xh = (ixm >= 0 ? ixm : ixm - (tile_ - 1)) / tile_,
+      yh = (iym >= 0 ? iym : iym - (tile_ - 1)) / tile_;
+    // Meters within the tile, in [0, tile_)
+    ixm -= tile_ * xh; iym -= tile_ * yh;
     xh += tileoffx_;
     yh += tileoffy_;
     int z = 0;
@@ -56,11 +58,11 @@ namespace GeographicLib {
                         * tilegrid_ + (xh / tilegrid_)];
     grid[z++] = letters_[(tilegrid_ - (yh % tilegrid_) - 1)
                         * tilegrid_ + (xh % tilegrid_)];
-    // Need extra real because, since C++11, pow(float, int) returns double
-    real mult = real(pow(real(base_), max(tilelevel_ - prec, 0)));
-    int
-      ix = int(floor(xf / mult)),
-      iy = int(floor(yf / mult));
+    int ix = ixm, iy = iym;
+    for (int c = max(tilelevel_ - prec, 0); c--;) {
+      ix /= base_;
+      iy /= base_;
+    }
     for (int c = min(prec, int(tilelevel_)); c--;) {
       grid[z + c] = digits_[ ix % base_ ];
       ix /= base_;
@@ -68,11 +70,15 @@ namespace GeographicLib {
       iy /= base_;
     }
     if (prec > tilelevel_) {
-      xf -= floor(xf / mult);
-      yf -= floor(yf / mult);
-      mult = real(pow(real(base_), prec - tilelevel_));
-      ix = int(floor(xf * mult));
-      iy = int(floor(yf * mult));
+      // Need extra real because, since C++11, pow(float, int) returns double
+      real mult = real(pow(real(base_), prec - tilelevel_)),
+        xr = floor(xf * mult), yr = floor(yf * mult);
+      // The products are rounded; make sure that a point just below a cell
+      // boundary isn't moved across it.
+      if (fma(xf, mult, -xr) < 0) --xr;
+      if (fma(yf, mult, -yr) < 0) --yr;
+      ix = int(xr);
+      iy = int(yr);
       for (int c = prec - tilelevel_; c--;) {
         grid[z + c + tilelevel_] = digits_[ ix % base_ ];
         ix /= base_;
@@ -155,12 +161,12 @@ namespace GeographicLib {
     // and open on the upper end -- and this is reflected in the error
     // messages.  NaNs are let through.
     if (x < minx_ || x >= maxx_)
-      throw GeographicErr("Easting " + Utility::str(int(floor(x/1000)))
+      throw GeographicErr("Easting " + Utility::str(floor(x/1000))
                           + "km not in OSGB range ["
                           + Utility::str(minx_/1000) + "km, "
                           + Utility::str(maxx_/1000) + "km)");
     if (y < miny_ || y >= maxy_)
-      throw GeographicErr("Northing " + Utility::str(int(floor(y/1000)))
+      throw GeographicErr("Northing " + Utility::str(floor(y/1000))
                           + "km not in OSGB range ["
                           + Utility::str(miny_/1000) + "km, "
                           + Utility::str(maxy_/1000) + "km)");
